@@ -1,0 +1,14 @@
+//go:build verif
+
+// Contracts for the contract-based verification in /verif (comment-only file).
+
+package ifstate
+
+//@ # reading the interface's topology information (under its read lock) has no effect
+//@ func (*Interface).TopoInfo
+//@   requires intf != nil
+//@   modifies nothing
+//@   ensures result == intf.topoInfo
+//@ func (*Interfaces).Get
+//@   trusted
+//@   modifies nothing
